@@ -15,6 +15,7 @@ import (
 	"github.com/go-i2p/common/offline_signature"
 	"github.com/go-i2p/common/signature"
 
+	"github.com/go-i2p/logger"
 	"go.step.sm/crypto/x25519"
 
 	"verifharness/core"
@@ -404,7 +405,7 @@ func c04WellKnownOptions(c *core.Ctx) {
 		dict := []string{"", ".", "..", "...", "0", "0.", "0.9", "0.9.", "0.9. ", "0.9.\x00", "0.9.+65", "0.9.-1", "0.9.65", "0.9.65.1", "0.9.99999999999999999999", "1.0.0", "0.10.1", ".9.65", "0..65",
 			"0.9.65-rc", " 0.9.65", "0.9.65\n", "00.09.065", "+0.9.65", "0.9.６５", "a.b.c", "0.9.0x41", "-", "+", " ", "\x00", "\xff\xfe", "٠.٩.٦٥",
 			"f", "fR", "LU", "XfR", "BC", "4", "6", "46", "BC4", "BC6", "PfRD", "K", "G", "E", "\x00R", "R\x00", "2", "-2", "99999999999", "2 ",
-			"1.2.3.4", "::1", "[::1]", "1.2.3.4:80", "fe80::1%eth0", "example.i2p", "localhost", "256.1.1.1", "1.2.3", "01.2.3.4", "1.2.3.4 ", "::ffff:1.2.3.4", "0x7f.1",
+			"[", "]", "[]", "[:", ":", "%", "/", "1.2.3.4", "::1", "[::1]", "1.2.3.4:80", "fe80::1%eth0", "example.i2p", "localhost", "256.1.1.1", "1.2.3", "01.2.3.4", "1.2.3.4 ", "::ffff:1.2.3.4", "0x7f.1",
 			"1", "65535", "65536", "0", "-1", "+80", "080", "8 0", "80\x00", "1e3", "0x50", "９０", "4294967377",
 			"1500", "1280", "1279", "65536", "-1500"}
 		switch r.Pick(8) {
@@ -515,6 +516,62 @@ func c04WellKnownOptions(c *core.Ctx) {
 				}
 			}
 		}
+	})
+
+	// the same calls with the library's debug logging switched on (as DEBUG_I2P=debug does; the output
+	// stays discarded): every parser on well-formed inputs, the accessor sweep of what it returns, the
+	// signing RouterInfo constructor. Logging formats its fields while it holds the logger's lock; a
+	// logged value whose String() logs again never returns.
+	parsers := lib.Parsers()
+	c.Job("debug-logging", len(parsers)*c.N(2, 12), func(i int, r *core.Rand) {
+		lg := logger.GetGoI2PLogger()
+		if lg == nil {
+			return
+		}
+		before := lg.GetLevel()
+		lg.SetLevel(logger.DebugLevel)
+		defer lg.SetLevel(before)
+		p := parsers[i%len(parsers)]
+		cs := gen.WellFormed(p.Kind, p.Arg, r)
+		sh := gen.Shape{"logging": "debug"}
+		for k, v := range cs.Shape {
+			sh[k] = v
+		}
+		out, panicked, pv, stack := callParser(c, p, cs.Bytes)
+		c.Eval(1)
+		if panicked {
+			reportPanic(c, "C04", p.Name, sh, cs.Bytes, pv, stack)
+			return
+		}
+		c.OpResult(p.ID()+"(debug logging)", out.Accepted)
+		c.Nontrivial([]byte("debug-logging"), []byte(p.ID()), cs.Bytes)
+		if out.Accepted && out.Val != nil {
+			var obs []lib.Obs
+			c.Call(p.ID()+"->accessors(debug logging)", cs.Bytes, func() { obs = lib.Observe(out.Val, lib.ObserveOpts{Depth: 1}) })
+			for _, o := range obs {
+				if o.Panicked && strings.HasPrefix(core.PanicCulprit(o.Stack), "github.com/go-i2p/") {
+					sh["method"], sh["panic_at"] = o.Name, panicSite(o.Stack)
+					c.ViolateP("C04", p.Name+"->"+o.Name, "method-panic", sh, cs.Bytes, o.Panic, o.Stack)
+				}
+			}
+		}
+		if p.Kind == "rinfo" {
+			k7, _ := rm.NewSigKey(7, r)
+			priv, _ := lib.LibSigningPrivateKey(k7)
+			m, msh := gen.RouterInfo(r)
+			if msh["sig"].(int) == 7 {
+				m.Published &= 1<<62 - 1
+				for j := range m.Addrs {
+					if len(m.Addrs[j].Style) == 0 {
+						m.Addrs[j].Style = []byte("SSU2")
+					}
+				}
+				if p2, pv2, st2 := c.Call("router_info.NewRouterInfo(debug logging)", m.EncodeUnsigned(), func() { lib.BuildRouterInfo(m, priv, 0) }); p2 {
+					reportPanic(c, "C04", "router_info.NewRouterInfo", sh, m.EncodeUnsigned(), pv2, st2)
+				}
+			}
+		}
+		c.Bucket("debug-logging/returned/" + p.Kind)
 	})
 
 	c.Job("well-known-options", c.N(3000, 60000), func(i int, r *core.Rand) {
